@@ -26,7 +26,7 @@ int ST_EXC;
  * GI0, GI1: arbitrary positions ("for every index" in conclusions); the harness
  * sets them to nondeterministic values once.  ST_LIVE counts live heap blocks
  * obtained from st_new_*.  ST_FAULT != 0 lets st_new_* fail (C19 fault mode).   */
-size_t GI0, GI1;
+size_t GI0, GI1, GI2;
 long ST_LIVE;
 int ST_FAULT;
 size_t nondet_size_t(void);
@@ -65,18 +65,18 @@ void st_delete(void *p) {
 T *tr_copy_##sfx(T *d, const T *s, size_t n) { \
     __CPROVER_assert(n == 0 || (__CPROVER_r_ok(s, n * sizeof(T)) && __CPROVER_w_ok(d, n * sizeof(T))), "tr_copy.precondition: source readable and destination writable for n elements"); \
     if (n != 0) { \
-        T v0 = (GI0 < n) ? s[GI0] : (T)0, v1 = (GI1 < n) ? s[GI1] : (T)0; \
+        T v0 = (GI0 < n) ? s[GI0] : (T)0, v1 = (GI1 < n) ? s[GI1] : (T)0, v2 = (GI2 < n) ? s[GI2] : (T)0; \
         __CPROVER_havoc_slice(d, n * sizeof(T)); \
-        __CPROVER_assume(GI0 < n ==> d[GI0] == v0); __CPROVER_assume(GI1 < n ==> d[GI1] == v1); \
+        __CPROVER_assume(GI0 < n ==> d[GI0] == v0); __CPROVER_assume(GI1 < n ==> d[GI1] == v1); __CPROVER_assume(GI2 < n ==> d[GI2] == v2); \
     } \
     return d; \
 } \
 T *tr_move_##sfx(T *d, const T *s, size_t n) { \
     __CPROVER_assert(n == 0 || (__CPROVER_r_ok(s, n * sizeof(T)) && __CPROVER_w_ok(d, n * sizeof(T))), "tr_move.precondition: source readable and destination writable for n elements"); \
     if (n != 0) { \
-        T v0 = (GI0 < n) ? s[GI0] : (T)0, v1 = (GI1 < n) ? s[GI1] : (T)0; \
+        T v0 = (GI0 < n) ? s[GI0] : (T)0, v1 = (GI1 < n) ? s[GI1] : (T)0, v2 = (GI2 < n) ? s[GI2] : (T)0; \
         __CPROVER_havoc_slice(d, n * sizeof(T)); \
-        __CPROVER_assume(GI0 < n ==> d[GI0] == v0); __CPROVER_assume(GI1 < n ==> d[GI1] == v1); \
+        __CPROVER_assume(GI0 < n ==> d[GI0] == v0); __CPROVER_assume(GI1 < n ==> d[GI1] == v1); __CPROVER_assume(GI2 < n ==> d[GI2] == v2); \
     } \
     return d; \
 } \
@@ -84,7 +84,7 @@ T *tr_assign_##sfx(T *d, size_t n, T c) { \
     __CPROVER_assert(n == 0 || __CPROVER_w_ok(d, n * sizeof(T)), "tr_assign.precondition: destination writable for n elements"); \
     if (n != 0) { \
         __CPROVER_havoc_slice(d, n * sizeof(T)); \
-        __CPROVER_assume(GI0 < n ==> d[GI0] == c); __CPROVER_assume(GI1 < n ==> d[GI1] == c); \
+        __CPROVER_assume(GI0 < n ==> d[GI0] == c); __CPROVER_assume(GI1 < n ==> d[GI1] == c); __CPROVER_assume(GI2 < n ==> d[GI2] == c); \
         __CPROVER_assume(d[0] == c); __CPROVER_assume(d[n - 1] == c); \
     } \
     return d; \
